@@ -708,7 +708,95 @@ def r69(facts, res):
         res.ok(R, 'progress-kept', loc_of(b, lc[0][0]), '%d paths push the successor; the %d that do not have tested that the input position did not advance' % (npush, nskip))
 
 
+def r610(facts, res, R='R6.10'):
+    """A forward move is recorded as a Shift repair exactly when it consumed a lexeme: on every path through CPCTPlus::shift() that
+    pushes a neighbour, the neighbour's repairs are extended by Repair::Shift iff the position returned by lr_cactus is beyond the
+    node's.  Counting a reduce-only move as a shift lets the success test ("three trailing shifts") accept a repair after which
+    fewer than three lexemes parse."""
+    bs = [b for b in facts.lib_bodies(['lrpar']) if b.name == 'shift' and 'cpctplus::CPCTPlus' in b.path]
+    if len(bs) != 1:
+        res.lost(R, 'CPCTPlus::shift not found')
+        return
+    b = bs[0]
+    ps = [p for p in Walker(b, facts, max_paths=512).run(0) if p.end[0] == 'return' and p.calls(name='push')]
+    if not ps:
+        res.lost(R, 'no path of CPCTPlus::shift pushes a neighbour')
+        return
+
+    def is_new(t):
+        return isinstance(t, tuple) and t and t[0] == 'field' and is_call(t[1], 'lr_cactus') and t[2] == 0
+
+    def is_old(t):
+        return isinstance(t, tuple) and len(t) > 3 and t[0] == 'field' and t[3] == 'laidx'
+    bad = None
+    n = 0
+    for p in ps:
+        pushed = p.calls(name='push')[0][3][1]
+        shifted = term_has(pushed, lambda x: isinstance(x, tuple) and x and x[0] == 'variant' and x[3] == 'Shift' and x[1].endswith('cpctplus::Repair'))
+        # what the path knows about new vs old position
+        prog = None
+        for c, v in p.conds:
+            if not (isinstance(c, tuple) and c and c[0] == 'bin' and c[1] in ('Lt', 'Le', 'Eq') and isinstance(v, int)):
+                continue
+            a, d = strip_ref(c[2]), strip_ref(c[3])
+            if is_old(a) and is_new(d):
+                prog = {('Lt', 1): True, ('Lt', 0): False, ('Le', 0): False, ('Eq', 1): False, ('Eq', 0): True}.get((c[1], v), prog)     # old < new (new >= old always)
+            elif is_new(a) and is_old(d):
+                prog = {('Le', 1): False, ('Le', 0): True, ('Lt', 0): None, ('Eq', 1): False, ('Eq', 0): True}.get((c[1], v), prog)
+        n += 1
+        if shifted and prog is not True:
+            bad = 'a neighbour is given a Repair::Shift on a path (blocks %s) that has not established that the input position advanced: a move that only reduces counts as a shifted lexeme' % p.blocks[-8:]
+        elif not shifted and prog is True:
+            bad = 'a move that consumed a lexeme is not recorded as a Shift'
+    if bad:
+        res.bad(R, 'shift-iff-consumed', loc_of(b), bad, {'function': b.path})
+    else:
+        res.ok(R, 'shift-iff-consumed', loc_of(b), 'on each of the %d pushing paths a Shift repair is recorded exactly when lr_cactus moved the input position' % n)
+
+
+def r611(facts, res):
+    """A deletion is charged the cost of the token it deletes and moves one lexeme on: in CPCTPlus::delete the cost added is
+    token_cost(next_tidx(n.laidx)) for the very position n.laidx of the node, and the new node stands at n.laidx + 1.  (Dijkstra's
+    buckets are keyed by accumulated cost: a wrong charge reorders the search and the reported set is no longer the minimum.)"""
+    R = 'R6.11'
+    bs = [b for b in facts.lib_bodies(['lrpar']) if b.name == 'delete' and 'cpctplus::CPCTPlus' in b.path]
+    if len(bs) != 1:
+        res.lost(R, 'CPCTPlus::delete not found')
+        return
+    b = bs[0]
+    ps = [p for p in Walker(b, facts, max_paths=256).run(0) if p.end[0] == 'return' and p.calls(name='push')]
+    if not ps:
+        res.lost(R, 'no path of CPCTPlus::delete pushes a neighbour')
+        return
+    bad = []
+    for p in ps:
+        pushed = p.calls(name='push')[0][3][1]
+        node = [x for x in subterms(pushed) if isinstance(x, tuple) and x and x[0] == 'variant' and x[1].endswith('PathFNode')]
+        if not node:
+            bad.append('the neighbour pushed is not a PathFNode literal')
+            continue
+        adt = facts.adt(node[0][1])
+        fv = dict(zip([f['name'] for f in adt['variants'][0]['fields']], node[0][4]))
+        old = [x for x in subterms(fv.get('laidx')) if isinstance(x, tuple) and len(x) > 3 and x[0] == 'field' and x[3] == 'laidx']
+        la = fv.get('laidx')
+        if not (la is not None and la[0] == 'bin' and la[1] == 'Add' and ('const', 1) in (la[2], la[3]) and old):
+            bad.append('the new node does not stand one lexeme after the old one')
+            continue
+        oldpos = old[0]
+        nts = [x for x in subterms(fv.get('cf')) if is_call(x, 'next_tidx')]
+        if not nts:
+            bad.append('the cost added is not that of next_tidx(..)')
+        elif strip_ref(nts[0][2][1]) != oldpos:
+            bad.append('the deletion is charged token_cost(next_tidx(%s)), not the cost of the token at the node\'s own position: a deletion costs what the deleted token costs' % fmt_term(nts[0][2][1])[:60])
+    if bad:
+        res.bad(R, 'delete-charge', loc_of(b), '; '.join(sorted(set(bad))), {'function': b.path})
+    else:
+        res.ok(R, 'delete-charge', loc_of(b), 'delete: cf + token_cost(next_tidx(n.laidx)), new position n.laidx + 1')
+
+
 def run(facts, res):
+    r610(facts, res)
+    r611(facts, res)
     r68(facts, res)
     r69(facts, res)
     r61(facts, res)
